@@ -15,6 +15,7 @@ class Calls:
         self.eig = []       # (mats, evals, evecs)
         self.minimize = []  # dict(fun, x0, result)
         self.curv_tria = [] # (u1, u2, c1, c2) returned by TriaMesh.curvature_tria
+        self.eigs = []      # (k, evals, evecs) returned by Solver.eigs
 
 
 @contextlib.contextmanager
@@ -61,6 +62,14 @@ def capture():
         calls.curv_tria.append(tuple(np.array(x, copy=True) for x in r))
         return r
     _TM.curvature_tria = my_ct
+    from lapy import Solver as _SV
+    real_eigs = _SV.eigs
+
+    def my_eigs(self, k=10):
+        r = real_eigs(self, k)
+        calls.eigs.append((k, np.array(r[0], copy=True), np.array(r[1], copy=True)))
+        return r
+    _SV.eigs = my_eigs
     conf = None
     try:
         import lapy.conformal as conf
@@ -78,5 +87,6 @@ def capture():
     finally:
         spla.splu, spla.spsolve, spla.eigsh, np.linalg.eig = real_splu, real_spsolve, real_eigsh, real_eig
         _TM.curvature_tria = real_ct
+        _SV.eigs = real_eigs
         if conf is not None:
             conf.minimize = real_min
